@@ -212,20 +212,39 @@ atol=rtol + atol/|spacing|)` with the default `rtol = 0.01`, `atol = 0` — with
 whatever the plane number (/repo 95f2029) -/
 def nearWhole (m : Rat) : Bool := rabs (m - (roundHalfEven m : Rat)) ≤ tolSpacing
 
-/-- `allow_missing_positions=True`: spacing is the hint (or the smallest gap), every distance must be a
-whole multiple of it (within 1 % of the spacing), the multiples are the volume positions -/
+def allDistinct {α : Type} [DecidableEq α] : List α → Bool
+  | [] => true
+  | a :: t => !t.contains a && allDistinct t
+
+/-- refinement of the estimated spacing over growing baselines (/repo 8504cfa): for the distance `D` of each plane above the
+lowest one, in increasing order, `n = round(D / s)` (half to even) and, if `n > 0`, the estimate becomes `D / n` -/
+def refineSpacing (s : Rat) (ds : List Rat) : Rat :=
+  ds.foldl (fun s D => if 0 < roundHalfEven (D / s) then D / ((roundHalfEven (D / s) : Int) : Rat) else s) s
+
+/-- the spacing estimated without a hint when gaps are allowed: the smallest gap between the sorted distinct distances
+(`none` when that is 0 within `1e-5`), refined over the distance of every plane from the lowest one -/
+def estimateSpacing (du : List Rat) : Option Rat :=
+  match minGap du with
+  | none => none
+  | some gp =>
+    if rabs gp ≤ tolEq then none else
+    match sortRat du with
+    | [] => none
+    | lo :: rest => some (refineSpacing gp (rest.map (fun d => d - lo)))
+
+/-- `allow_missing_positions=True`: spacing is the hint (or the refined smallest gap), every distance must be a
+whole multiple of it (within 1 % of the spacing), the distinct positions must lie at pairwise different multiples, the
+multiples are the volume positions -/
 def regularMissing (ds du : List Rat) (dmin : Rat) (hint : Option Rat) (perp : Bool) : Option (Rat × List Int) :=
   let spacing? : Option Rat := match hint with
     | some h => some h
-    | none => match minGap du with
-      | none => none
-      | some gp => if rabs gp ≤ tolEq then none else some gp
+    | none => estimateSpacing du
   match spacing? with
   | none => none
   | some sp =>
     if sp == 0 then none else
     let mult := ds.map (fun d => (d - dmin) / sp)
-    let regular := mult.all nearWhole
+    let regular := mult.all nearWhole && allDistinct (du.map (fun d => roundHalfEven ((d - dmin) / sp)))
     if regular && perp then some (rabs sp, mult.map roundHalfEven) else none
 
 /-- "Inferred spacing does not match the given spacing_hint" -/
@@ -391,10 +410,6 @@ structure VolOut where
   rowFirst : Int
   colFirst : Int
 deriving Repr
-
-def allDistinct {α : Type} [DecidableEq α] : List α → Bool
-  | [] => true
-  | a :: t => !t.contains a && allDistinct t
 
 /-- `_do_columns_identify_unique_frames`: `Image.get_volume` needs pairwise different frame positions,
 `Segmentation.get_volume` pairwise different (position, segment) pairs (positions alone for a label map) -/
